@@ -46,6 +46,18 @@ type cfgProps struct {
 	V cfgBound `prefix:"root,required=false"`
 }
 
+type cfgOrdLoader struct {
+	doc []byte
+	ord int
+}
+
+func (l *cfgOrdLoader) LoadConfig() ([]byte, error) { return l.doc, nil }
+func (l *cfgOrdLoader) Order() int                  { return l.ord }
+
+type cfgPrioLoader struct{ *cfgOrdLoader }
+
+func (*cfgPrioLoader) Priority() {}
+
 func docFor(i int, keys []string, root bool) []byte {
 	tree := map[string]any{}
 	for _, k := range keys {
@@ -104,6 +116,15 @@ func runConfig(sc *CfgScenario, dir string) map[string]any {
 				args = append(args, fmt.Sprintf("--app.config=root.%s=%d", k, o.Val))
 			}
 			ld = loader.NewArgsLoader(args)
+		case "ordm", "ordz", "ordp", "priom", "priop":
+			// a user-written loader that declares its own place in the ordering contract
+			ord := map[string]int{"ordm": -1, "ordz": 0, "ordp": 1, "priom": -1, "priop": 1}[o.Lk]
+			ol := &cfgOrdLoader{doc: docFor(o.Val, o.Keys, true), ord: ord}
+			if strings.HasPrefix(o.Lk, "prio") {
+				ld = &cfgPrioLoader{ol}
+			} else {
+				ld = ol
+			}
 		default:
 			ld = loader.NewRawLoader(docFor(o.Val, o.Keys, true))
 		}
